@@ -121,6 +121,26 @@ theorem xcorr_current_partial (data : List (List ℂ)) (i j : ℕ) (hij : i ≤ 
   simp only [xcorrFill, List.getD_eq_getElem?_getD, List.getElem?_map, List.getElem?_range hi,
     List.getElem?_range hj, Option.map_some, Option.getD_some, if_pos hij]
 
+/-- `xcorr_norm` (as repaired upstream): the zero-lag entry (index `N-1`) of every computed
+sequence equals the correlation coefficient of the two channels -/
+theorem xcorr_norm_zero_lag (var : Variant) (data : List (List ℝ)) (i j : ℕ) (hij : i ≤ j)
+    (hj : j < data.length) (hN : 0 < (data.headD []).length)
+    (hi' : (data.getD i []).length = (data.headD []).length)
+    (hj' : (data.getD j []).length = (data.headD []).length)
+    (hnz : nth (correlateFull (data.getD i []) (data.getD j [])) ((data.headD []).length - 1) ≠ 0) :
+    nth (((xcorrNormFill var data).getD i []).getD j []) ((data.headD []).length - 1)
+      = corrcoef1 (data.getD i []) (data.getD j []) := by
+  have hi : i < data.length := by omega
+  have hlen : (correlateFull (data.getD i []) (data.getD j [])).length = 2 * (data.headD []).length - 1 := by
+    simp only [correlateFull, convFull, length_tabulate, List.length_map, List.length_reverse, hi', hj']
+    omega
+  simp only [xcorrNormFill, List.getD_eq_getElem?_getD, List.getElem?_map, List.getElem?_range hi,
+    List.getElem?_range hj, Option.map_some, Option.getD_some, if_pos hij]
+  simp only [← List.getD_eq_getElem?_getD]
+  rw [nth_map _ (by rw [hlen]; omega)]
+  simp only [r_mul, r_div]
+  rw [div_self hnz, one_mul]
+
 /-! ### Pearson coefficient, z-score, percent change (ℝ) -/
 
 theorem pearson_abs_le_one (seed target : List ℝ) (h : seed.length = target.length) :
